@@ -143,6 +143,7 @@ def prop_C03(run):
     pc_ = run.anchor("TAB-cli", "driver::parse_command")
     if pc_:
         rules_tab.tab_cli_derive_when(run, pc_)  # every group that is written gets its file name, after all inputs are known
+        rules_tab.tab_cli_distinct_outputs(run, pc_)
     rules_tab.tab_cli_groups(run)               # ... and reaches the write
     # unchecked arithmetic in the formatters (a panic on an empty or odd-sized output)
     lim2_obligations(run, only=lambda key, f: "bitvec_format" in key)
